@@ -20,6 +20,7 @@ type cursor struct {
 	Parent string
 	State  int
 	Cur    string
+	From   int // automaton state of the parent before Cur was consumed (identifies the grammar transition)
 }
 
 var nilCursor = cursor{Parent: "<nil>"}
@@ -51,7 +52,7 @@ func (c cset) String() string {
 		if k == nilCursor {
 			ks = append(ks, "nil")
 		} else {
-			ks = append(ks, fmt.Sprintf("%s@%s/%d", k.Cur, k.Parent, k.State))
+			ks = append(ks, fmt.Sprintf("%s@%s/%d>%d", k.Cur, k.Parent, k.From, k.State))
 		}
 	}
 	sort.Strings(ks)
@@ -71,6 +72,9 @@ type shapeAnalysis struct {
 	changed bool
 	depth   int
 	prev    map[string]*shapeSummary // summaries of the previous fixpoint round (used for calls in progress)
+	// consumed records, per grammar transition (parent rule, state before, child rule), the walker functions that
+	// received such a child as an argument
+	consumed map[transition]map[string]bool
 	tops    map[string]bool          // places where an unknown node value had to be assumed
 }
 
@@ -106,7 +110,7 @@ func (a *shapeAnalysis) up(c cursor) cset {
 		return out
 	}
 	for tok, dst := range d.Trans[0] {
-		out[cursor{Parent: c.Cur, State: dst, Cur: tok}] = true
+		out[cursor{Parent: c.Cur, State: dst, Cur: tok, From: 0}] = true
 	}
 	if d.Accept[0] {
 		out[nilCursor] = true
@@ -130,12 +134,18 @@ func (a *shapeAnalysis) next(c cursor) cset {
 		return out
 	}
 	for tok, dst := range d.Trans[c.State] {
-		out[cursor{Parent: c.Parent, State: dst, Cur: tok}] = true
+		out[cursor{Parent: c.Parent, State: dst, Cur: tok, From: c.State}] = true
 	}
 	if d.Accept[c.State] {
 		out[nilCursor] = true
 	}
 	return out
+}
+
+type transition struct {
+	Parent string
+	From   int
+	Child  string
 }
 
 const constParent = "<const>"
@@ -466,7 +476,7 @@ func (a *shapeAnalysis) analyze(fn *ssa.Function, args []cset) *shapeSummary {
 			}
 			switch {
 			case c.Cur == "?" && eq:
-				n[cursor{Parent: c.Parent, State: c.State, Cur: rule}] = true
+				n[cursor{Parent: c.Parent, State: c.State, Cur: rule, From: c.From}] = true
 			case c.Cur == "?":
 				n[c] = true
 			case (c.Cur == rule) == eq:
@@ -533,6 +543,15 @@ func (a *shapeAnalysis) analyze(fn *ssa.Function, args []cset) *shapeSummary {
 					}
 					for _, arg := range x.Call.Args {
 						if a.isNode(arg.Type()) {
+							for cc := range eval(st, arg) {
+								if cc != nilCursor {
+									t := transition{cc.Parent, cc.From, cc.Cur}
+									if a.consumed[t] == nil {
+										a.consumed[t] = map[string]bool{}
+									}
+									a.consumed[t][callee.Name()] = true
+								}
+							}
 							cargs = append(cargs, eval(st, arg).clone())
 						} else if r, ok := constRule(st, arg); ok {
 							cargs = append(cargs, cset{cursor{Parent: constParent, Cur: r}: true})
